@@ -348,7 +348,7 @@ def generate(scratch, hdir, disabled=None):
                 # and very expensive for CBMC) is not executed
                 fl = "".join(f"    std::mem::forget({v});\n" for v in spec["forget"])
                 body = f"    let __seg_r = {{\n        let mut __seg_f = || -> {spec['ret']} {{\n{body}\n        }};\n        __seg_f()\n    }};\n{fl}    __seg_r"
-            out[mod].append(f"// ---- segment {name}: {spec['file']} fn {spec['func']} lines {lines[0]}-{lines[1]} (cut on this run)\n#[allow(unused_variables, unused_mut, unreachable_code, clippy::all)]\n{sig} {{\n{body}\n}}\n")
+            out[mod].append(f"// ---- segment {name}: {spec['file']} fn {spec['func']} lines {lines[0]}-{lines[1]} (cut on this run)\n#[allow(unused_variables, unused_mut, unreachable_code, clippy::all)]\n{spec.get('attrs', '')}\n{sig} {{\n{body}\n}}\n")
             info[name] = {
                 "ok": True,
                 "file": spec["file"],
@@ -359,7 +359,7 @@ def generate(scratch, hdir, disabled=None):
                 "live_in": params,
             }
         except Exception as e:  # noqa: BLE001
-            out[mod].append(f"// ---- segment {name}: UNAVAILABLE ({e})\n#[allow(unused_variables, clippy::all)]\n{sig} {{\n    panic!(\"segment {name} could not be cut from the current source\")\n}}\n")
+            out[mod].append(f"// ---- segment {name}: UNAVAILABLE ({e})\n#[allow(unused_variables, clippy::all)]\n{spec.get('attrs', '')}\n{sig} {{\n    panic!(\"segment {name} could not be cut from the current source\")\n}}\n")
             info[name] = {"ok": False, "file": spec["file"], "func": spec["func"], "why": str(e)}
     for mod, parts in out.items():
         # line ranges of the generated functions (for attributing compile errors)
